@@ -34,6 +34,9 @@ inductive Err
   | badLength      -- fixed-size object: "invalid decoded length"
   | noMap | unterminated | dupKey   -- psbt map layer
   | badMagic | badCommand | badChecksum  -- p2p envelope
+  | incomplete     -- p2p envelope: IncompleteMessageError (BTClibRuntimeError)
+  | badCount       -- a count above the cap of the payload class / a non-zero headers tx count
+  | badFlag        -- version relay flag above 1
   | invalid        -- a semantic check of the class
   deriving DecidableEq, Repr
 
@@ -42,7 +45,8 @@ def Err.name : Err → String
   | .shortBytes => "shortbytes" | .superfluous => "superfluous" | .trailing => "trailing"
   | .badLength => "badlength" | .noMap => "nomap" | .unterminated => "unterminated"
   | .dupKey => "dupkey" | .badMagic => "badmagic" | .badCommand => "badcommand"
-  | .badChecksum => "badchecksum" | .invalid => "invalid"
+  | .badChecksum => "badchecksum" | .invalid => "invalid" | .incomplete => "incomplete"
+  | .badCount => "badcount" | .badFlag => "badflag"
 
 def Err.ofVarInt : VarInt.Err → Err
   | .short => .short | .noncanonical => .noncanonical | .toobig => .toobig
@@ -62,10 +66,11 @@ def Codec.parseAll (c : Codec α) (b : Bytes) : Except Err α :=
   | .ok (t, []) => .ok t
   | .ok (_, _ :: _) => .error .trailing
 
-/-- `read_exactly(stream, n, what)`; `e` is the refusal of a short read. -/
+/-- `read_exactly(stream, n, what)`; `e` is the refusal of a short read (`len(data) != size`, asked of
+    the octets read and not of the whole stream, which keeps a long list of items linear). -/
 def bytesN (n : Nat) (e : Err := .short) : Codec Bytes where
   ser b := b
-  parse b := if b.length < n then .error e else .ok (b.take n, b.drop n)
+  parse b := if (b.take n).length < n then .error e else .ok (b.take n, b.drop n)
   valid b := b.length = n
   size _ := n
 
@@ -129,6 +134,31 @@ def prefixed (cnt : Codec Nat) (body : Nat → Codec α) (len : α → Nat) : Co
     | .ok (n, r) => (body n).parse r
   valid x := cnt.valid (len x) ∧ (body (len x)).valid x
   size x := cnt.size (len x) + (body (len x)).size x
+
+/-- a head field (of any type), then a body whose shape depends on it. -/
+def prefixedBy (hd : Codec κ) (body : κ → Codec α) (key : α → κ) : Codec α where
+  ser x := hd.ser (key x) ++ (body (key x)).ser x
+  parse bs := match hd.parse bs with
+    | .error e => .error e
+    | .ok (k, r) => (body k).parse r
+  valid x := hd.valid (key x) ∧ (body (key x)).valid x
+  size x := hd.size (key x) + (body (key x)).size x
+
+/-- a check on the parsed value (`if count > MAX: raise`), refused with `e`. -/
+def Codec.refine (c : Codec α) (p : α → Bool) (e : Err) : Codec α where
+  ser := c.ser
+  parse bs := match c.parse bs with
+    | .error e' => .error e'
+    | .ok (a, r) => if p a then .ok (a, r) else .error e
+  valid a := c.valid a ∧ p a = true
+  size := c.size
+
+/-- no field at all (`verack`, `getaddr`, …). -/
+def empty : Codec Unit where
+  ser _ := []
+  parse bs := .ok ((), bs)
+  valid _ := True
+  size _ := 0
 
 end Btc.Wire
 
